@@ -366,6 +366,60 @@ FREE_FIXED = ["//", "// ", "//  ", "// some text", "//   indented text", "/// tr
               "// returns {id} for the user, see @Route", "", "/", "@Name", "// @Name\x0bd", "// @Name\u00a0d"]
 
 
+# Free text that merely BEGINS the way a tool directive does (go/ast: "line ", "extern ", "export ", or
+# [a-z0-9]+:[a-z0-9] right after the marker).  The property knows no such class: a comment line that is not
+# of the annotation form is free text, with or without a blank after the marker - wrapped prose
+# (`// line items of the order`, `// 16:30 on working days`) and genuine directives (`//go:generate x`,
+# which go/parser leaves in the Doc list; only CommentGroup.Text() drops them) alike.
+DIR_WORDS = ["line", "export", "extern"]
+DIR_TOOLS = ["go", "nolint", "lint", "todo", "note", "see", "08", "16", "20", "0", "x", "a1", "9z", "http"]
+DIR_REST = ["items of the order", "format of the report (csv or xlsx)", "warehouse and books the", "file.go:10", "name",
+            "declaration; cut-off is at", "", " ", "x", "@Route(/x)", "résumé"]
+DIR_AFTER = ["generate stringer -type=T", "build linux && amd64", "errcheck", "00 and 20:00 only", "9 video", "this is prose",
+             "fix", "30 on working days", "embed x", "a", "0", "v", "1", "b c", "x  "]
+
+
+def gen_directive_like(rng):
+    """One line comment (bytes) that starts like a directive, next to near misses that do not."""
+    lead = rng.choice(["", " ", " ", " ", "  ", "\t"])
+    r = rng.random()
+    if r < 0.4:
+        w = rng.choice(DIR_WORDS)
+        k = rng.random()
+        if k < 0.15:
+            w = w.capitalize()                       # near miss: upper case
+        elif k < 0.25:
+            w = w + rng.choice(["s", "ed", ":", "-"])    # near miss: another word
+        rest = rng.choice(DIR_REST)
+        body = w + (" " + rest if rest != "" or rng.random() < 0.5 else "")
+    elif r < 0.9:
+        t = rng.choice(DIR_TOOLS) if rng.random() < 0.7 else \
+            "".join(rng.choice("abcxyz0189") for _ in range(rng.choice([1, 2, 3, 6])))
+        k = rng.random()
+        if k < 0.12:
+            t = t.capitalize() if t.capitalize() != t else t + "X"     # near miss: `Note:this`
+        after = rng.choice(DIR_AFTER)
+        if k > 0.9:
+            after = rng.choice([" spaced", "Upper", "", "é", ":", "-x"])   # near misses after the colon
+        body = t + ":" + after
+    else:
+        body = rng.choice(["line", "export", "extern", "a:", ":a", "a:b", "0:0", "go:generate", "a b:c", "//go:build x",
+                           "line\tx", "export\u00a0x", "-a:b", "_a:b", "é:a"])
+    return ("//" + lead + body).encode()
+
+
+DIRECTIVE_RE = re.compile(rb"(?:line |extern |export |[a-z0-9]+:[a-z0-9])")
+
+
+def directive_like(raw):
+    """None, "no blank" (go/ast's directive form) or "after blanks" (prose that begins the same way)."""
+    if not raw.startswith(b"//") or shaped(raw):
+        return None
+    if DIRECTIVE_RE.match(raw[2:]):
+        return "no blank"
+    return "after blanks" if raw[2:3] in (b" ", b"\t") and DIRECTIVE_RE.match(raw[2:].lstrip(b" \t")) else None
+
+
 def mutate_bytes(rng, b):
     if not b:
         return b
@@ -381,7 +435,9 @@ def mutate_bytes(rng, b):
 def gen_free(rng):
     """A line meant to be free text; classified afterwards (a near miss may be shaped by accident)."""
     r = rng.random()
-    if r < 0.45:
+    if r < 0.15:
+        raw = gen_directive_like(rng)
+    elif r < 0.45:
         raw = rng.choice(FREE_FIXED).encode()
     elif r < 0.75:
         words = ["the", "quick", "fox", "@Query", "(a)", "{b}", "see", "TODO", "x,y"] + UNI
@@ -456,6 +512,13 @@ def gen_gcomment(rng, multi=None):
     return b"/*" + source_clean(raw[2:-2]) + b"*/"
 
 
+def gen_lead(rng, more=()):
+    """A line of the leading free-text run (the wrapped description GetDescription reads)."""
+    if rng.random() < 0.25:
+        return classify_raw(gen_directive_like(rng))
+    return classify_raw(rng.choice([b"//", b"// ", b"// lead text", "// résumé (x)".encode(), b"//  two"] + list(more)))
+
+
 def gen_cblock(rng):
     """Blocks with general comments among the lines, mostly in the leading free-text run (where
     GetDescription reads them) and followed by more free text; now and then the next comment stands on
@@ -465,8 +528,7 @@ def gen_cblock(rng):
         if rng.random() < 0.5:
             items.append(classify_raw(gen_gcomment(rng)))
         else:
-            items.append(classify_raw(rng.choice([b"//", b"// ", b"// lead text", "// résumé (x)".encode(), b"//  two",
-                                                  b"// Archived widgets are left out."])))
+            items.append(gen_lead(rng, [b"// Archived widgets are left out."]))
     for _ in range(rng.choice([0, 1, 2, 3, 5])):
         r = rng.random()
         if r < 0.45:
@@ -498,7 +560,7 @@ def gen_block(rng, kind):
     items = []
     lead = rng.choice([0, 0, 1, 2, 3]) if kind != "other" else 0
     for _ in range(lead):
-        items.append(classify_raw(rng.choice([b"//", b"// ", b"// lead text", "// résumé (x)".encode(), b"//  two"])))
+        items.append(gen_lead(rng))
     for _ in range(n):
         r = rng.random()
         if kind == "other" and r < 0.4:
@@ -529,6 +591,15 @@ def lead_multiline(block):
         if it["raw"].startswith(b"/*") and b"\n" in it["raw"]:
             seen = True
     return False
+
+
+def leading_run(block):
+    out = []
+    for it in block:
+        if it["kind"] != "free":
+            break
+        out.append(it)
+    return out
 
 
 def key_stats(blocks):
@@ -570,7 +641,15 @@ def source_spec(block):
     for k, j in enumerate(joins):
         if j and (k == 0 or not block[k - 1]["raw"].startswith(b"/*")):
             return None          # only a general comment leaves room on its line
-    decl = DECLS[zlib.crc32(b"\x00".join(it["raw"] for it in block)) % len(DECLS)]
+    crc = zlib.crc32(b"\x00".join(it["raw"] for it in block))
+    decl = DECLS[crc % len(DECLS)]
+    # go/scanner itself obeys `//line file:n` when the comment starts in column 1 (and `/*line file:n*/` anywhere):
+    # the positions of what follows change and go/parser no longer sees one comment group.  Such a comment
+    # is written where it is an ordinary comment: in front of an indented declaration.
+    if any(it["raw"].startswith(b"/*line ") for it in block):
+        return None
+    if decl in ("func", "type") and any(it["raw"].startswith(b"//line ") and not j for it, j in zip(block, joins)):
+        decl = ("field", "const")[(crc >> 8) & 1]
     return {"joins": joins, "decl": decl}
 
 
@@ -853,6 +932,8 @@ def simpler_items(it):
                     cand.decode("utf-8")
                 except UnicodeDecodeError:
                     continue
+                if raw[:3] == b"// " and cand[:2] == b"//" and len(cand) > 2 and cand[2:3] != b" ":
+                    continue      # prose stays prose: `// x:y` is not shrunk to the directive form `//x:y`
                 c = classify_raw(cand)
                 if it["kind"] == "other":
                     c = {"kind": "other", "raw": cand}
@@ -946,6 +1027,13 @@ def main():
             [F_("// first"), F_("/*\n// @Description not this one\n// @Method(POST)\n*/"), F_("// third")],
             [F_("/* a */"), F_("// same line", join=True), F_("/* b\n c */"), F_("/* d */", join=True), F_("// last")],
             [F_("/*\n\n\n*/"), F_("/**/"), F_("// x"), annot_item(rng, b"Description", b"", None, b"the text", fancy=False)],
+            # wrapped prose whose lines begin like tool directives, and genuine directives: free text all the same
+            [F_("// Ships the parcel to an"), F_("// extern warehouse and books the"), F_("// export declaration; cut-off is at"),
+             F_("// 16:30 on working days"), F_("//"), annot_item(rng, b"Method", b"POST", None, b"", fancy=False),
+             F_("// see the carrier contract"), annot_item(rng, b"Route", b"/ship", None, b"", fancy=False)],
+            [F_("// line items of the order")],
+            [F_("//go:generate stringer -type=T"), F_("// Lists the widgets."), F_("//nolint:errcheck"),
+             annot_item(rng, b"Method", b"GET", None, b"", fancy=False), F_("//line file.go:10"), F_("//export name")],
         ]:
             blocks.append(fixed)
             kinds.append("cblock")
@@ -1072,7 +1160,8 @@ def main():
                 "(broken JSON5, byte-level mutations) and correspondence-only lines (leading white space); JSON5 keys in "
                 "lower, upper and mixed case incl. keys of one object that differ in case only; blocks with general "
                 "comments /* */ (one line, several lines, annotation-shaped lines inside, the next comment on the same "
-                "source line); every block that can be written as a doc comment is ALSO written into a Go source text "
+                "source line); free-text lines that begin the way tool directives do (`// line items ...`, `// 16:30 on ...`, "
+                "`//go:generate x`), alone, inside blocks and in the leading description run; every block that can be written as a doc comment is ALSO written into a Go source text "
                 "(doc comment of a method, type, struct field or constant), parsed with go/parser and mapped by "
                 "gast.MapDocListToCommentBlock / GetCommentsFromNode, and judged by the same model and oracle; "
                 "non-trivial = the implementation returned at least one attribute or an error; distinct = distinct "
@@ -1099,6 +1188,14 @@ def main():
                                                   for it in b if it.get("join")),
             "declaration_kinds": {d: sum(1 for b, p_ in zip(blocks, ev["parsed"]) if p_ is not None and
                                          source_spec(b)["decl"] == d) for d in sorted(set(DECLS))},
+        },
+        "free_text_lines_starting_like_a_tool_directive": {
+            "what": "`line `/`extern `/`export ` or [a-z0-9]+:[a-z0-9] at the start of the text: free text like any other line",
+            "right_after_the_marker": sum(1 for b in blocks for it in b if directive_like(it["raw"]) == "no blank"),
+            "after_blanks": sum(1 for b in blocks for it in b if directive_like(it["raw"]) == "after blanks"),
+            "of_these_in_a_parsed_source_block": sum(1 for b, p_ in zip(blocks, ev["parsed"]) if p_ is not None and "skip" not in p_
+                                                     for it in b if directive_like(it["raw"])),
+            "of_these_in_the_leading_free_text_run": sum(1 for b in blocks for it in leading_run(b) if directive_like(it["raw"])),
         },
         "json5_top_level_keys": key_stats(blocks),
         "json5_oracle_texts": len(j5ans), "json5_oracle_errors": sum(1 for v in j5ans.values() if v is None),
